@@ -26,7 +26,7 @@ const K_BALLOT: u32 = 33;
 
 /// message lengths the encryption properties name: 0..40, 100..140, the LEB128 boundaries, up to 64 KiB
 pub fn enc_len(x: &mut Xo, index: u64, allow_huge: bool) -> usize {
-    let special = [16382usize, 16383, 16384, 16385, 127, 128, 129, 255, 256, 4096, 65536, 158, 190, 1022];
+    let special = [16382usize, 16383, 16384, 16385, 127, 128, 129, 255, 256, 4096, 65536, 158, 190, 1022, 55, 56, 63, 64, 65, 166, 167, 168, 169, 335, 336, 337, 119, 120, 8192, 8191];
     match index % 7 {
         0 | 1 | 2 => (index / 7 % 41) as usize,
         3 | 4 => 100 + (index / 7 % 41) as usize,
@@ -99,6 +99,11 @@ impl Scenario for CryptSc {
                 p.set("n", n);
             }
             "td-protocol" | "tl-beacon" => {
+                if class == "td-protocol" && x.chance(1, 12) {
+                    // occasionally a large committee: identifiers up to 255 (0x7f / 0x80 / 0xff boundaries)
+                    p.set("n", *x.pick(&[128i64, 129, 200, 255]));
+                    p.set("t", x.range(2, 4) as i64);
+                }
                 let nf = x.below(4);
                 let kind = if class == "td-protocol" { K_DSHARE } else { K_SIGSHARE };
                 for _ in 0..nf {
@@ -360,9 +365,10 @@ fn sc_tamper(plan: &Plan, lib: &dyn Lib, rec: &mut Rec, all_bits: bool) {
 fn thresh_decrypt(plan: &Plan, lib: &dyn Lib, rec: &mut Rec) {
     let g = grp_of(plan.get("g"));
     let scheme = plan.get("scheme") as u8;
-    let n = plan.get("n").clamp(2, 12) as usize;
+    let n = plan.get("n").clamp(2, 255) as usize;
     let t = plan.get("t").clamp(2, n as i64) as usize;
     let mut x = Xo::derive(plan.seed, &[0xC2A]);
+    let big = n > 12;
     let Some(d) = deal(rec, lib, g, plan.get("key_class") as u64, t as u64, n as u64, plan.seed) else { return };
     let msg = msg_of(plan, &mut x);
     let Some(ct) = rec.call(lib, g, Op::SignCrypt, &[&d.pk, &[scheme], &msg]).first().map(|v| v.to_vec()) else { return };
@@ -380,7 +386,8 @@ fn thresh_decrypt(plan: &Plan, lib: &dyn Lib, rec: &mut Rec) {
         }
     }
     // each share verifies against its own public-key share and this ciphertext, for every scheme
-    for i in 0..n {
+    let to_verify: Vec<usize> = if big { let mut v = vec![0, n - 1, 126.min(n - 1), 127.min(n - 1)]; v.push(x.below(n as u64) as usize); v.dedup(); v } else { (0..n).collect() };
+    for i in to_verify {
         let v = rec.call(lib, g, Op::DShareVerify, &[&dshares[i], &d.pk_shares[i], &ct]);
         rec.case(&[12, g as u64, scheme as u64, t as u64, n as u64, i as u64, 0], false);
         rec.expect("C12", "share-verifies-own", v.is_ok(), || format!("own scheme={} g={} | honest decryption share of participant {} rejected for its own key share and ciphertext: {:?}", sch, g.name(), i + 1, v));
@@ -440,7 +447,9 @@ fn thresh_decrypt(plan: &Plan, lib: &dyn Lib, rec: &mut Rec) {
     let mut c = Courier::new(plan.seed, n + 2);
     install_faults(&mut c, &plan.faults);
     let comb = n + 1;
-    for i in 0..n {
+    // in a large committee only a handful of participants answer: the highest identifiers and a few drawn ones
+    let senders: Vec<usize> = if big { let mut v: Vec<usize> = (n - t..n).collect(); v.push(126.min(n - 1)); v.push(127.min(n - 1)); v.push(x.below(n as u64) as usize); v.sort(); v.dedup(); x.shuffle(&mut v); v } else { (0..n).collect() };
+    for i in senders {
         c.sim.send(i + 1, comb, kernel::sim::Msg { kind: K_DSHARE, corr: i as u64, parts: vec![vec![i as u8], dshares[i].clone()] });
     }
     let arrived = c.settle(comb, K_DSHARE);
